@@ -115,6 +115,16 @@ fn gen_case(c: &mut Chooser) -> Case {
             tags.push("crlf-schema".into());
         }
     }
+    // history: the project was generated once, then every GraphQL file got a comment line on top (tokens move, the
+    // generated TypeScript does not change), then it is generated again - the maps must describe the files as they are
+    if c.flag("history.regenerated-after-a-comment-line-was-added") {
+        for (k, v) in files.iter_mut().filter(|(k, _)| k.ends_with(".graphql")) {
+            let _ = k;
+            let eol = if v.contains("\r\n") { "\r\n" } else { "\n" };
+            *v = format!("# second generation{eol}{v}");
+        }
+        tags.push("regenerated-after-edit".into());
+    }
     let layout = c.choose("layout", LAYOUTS.len());
     let ext = c.choose("schema.ext", EXTS.len());
     let mode = c.choose("mode", 3);
@@ -389,9 +399,26 @@ fn check_case(rep: &Reporter, case: &Case, c: &Chooser, ctr: &Ctr) {
     let dir = cli::thread_dir("c06");
     let mut p = Project::default();
     p.files = case.files.clone();
-    cli::materialize(&dir, &p);
     let cfg_path = if case.files.contains_key("cfg/graphql.config.yaml") { "cfg/graphql.config.yaml" } else { "graphql.config.yaml" };
     let args: Vec<String> = ["--config-file", cfg_path, "--output-format", "json", "generate"].iter().map(|s| s.to_string()).collect();
+    if case.tags.iter().any(|t| t == "regenerated-after-edit") {
+        // first generation: the same files without their first (comment) line
+        let mut first = Project::default();
+        for (k, v) in &case.files {
+            let text = if k.ends_with(".graphql") { v.split_once('\n').map_or(String::new(), |x| x.1.to_string()) } else { v.clone() };
+            first.files.insert(k.clone(), text);
+        }
+        cli::materialize(&dir, &first);
+        let r1 = cli::run(&dir, &args, &[], Duration::from_secs(30));
+        ctr.runs.fetch_add(1, Ordering::Relaxed);
+        if r1.code != Some(0) {
+            rep.report(Violation { key: "e2e.generate_fails_on_valid_project".into(), what: format!("the first generation exits with {:?} on a valid project", r1.code), case: json!({"layer": "e2e", "tags": case.tags, "files": first.files, "stdout": r1.stdout}) });
+            return;
+        }
+        cli::overwrite(&dir, &p);
+    } else {
+        cli::materialize(&dir, &p);
+    }
     let r = cli::run(&dir, &args, &[], Duration::from_secs(30));
     ctr.runs.fetch_add(1, Ordering::Relaxed);
     let case_json = |extra: J| json!({"layer": "e2e", "tags": case.tags, "config": case.yaml, "picks": c.picks(), "deviations": c.deviation_labels(), "files": case.files, "detail": extra});
